@@ -339,6 +339,9 @@ func runCase(r *ev.Run, wk *worker, c caseT) outcome {
 	if len(o.Reached) > 0 {
 		first = fmt.Sprintf(" backend(%s) got %q", o.Reached[0].Class, o.Reached[0].SQL)
 	}
+	if os.Getenv("C21_DEBUG") != "" {
+		fmt.Fprintf(os.Stderr, "V\t%s\t%s\t%s\t%s\t%s\t%s\t%s\t%s\t%s\n", c.Kind, previewName(strings.ReplaceAll(c.SQL, "?", "1")), c.Lead, c.After, c.Case, c.Transport, c.User, c.NS+"/"+c.Table, outc)
+	}
 	r.Violation(ev.Witness{
 		Summary: fmt.Sprintf("read-only user %s, %s, %s table %s: %q (AST %s, Preview %s) -> %s%s",
 			c.User, c.Transport, c.NS, c.Table, c.SQL, node, previewName(c.SQL), outc, first),
